@@ -16,7 +16,7 @@ def appended(lst, event):
 
 SNF_LIST = "self.__enabled_plugins_for_starting_new_file"
 register(Contract(
-    key=PM + "starting_new_file", properties=["C07", "C13", "C14", "C15"],
+    key=PM + "starting_new_file", properties=["C07", "C13", "C14", "C15", "C16", "C11"],
     ghost=TRACE,
     ensures=["len(self.__document_pragmas) == 0", "len(self.__document_pragma_ranges) == 0",
              "result.scan_file == file_being_started", "result.line_number == 0", "result.in_fix_mode == fix_mode",
